@@ -55,6 +55,59 @@ def lower_ref_mut(text):
     return text, n
 
 
+def lower_for_continue(text):
+    """R22: Verus has no `continue` in `for` loops.  A guard at the top level of a `for` body
+         if COND { STMTS; continue; }  REST            ->  if COND { STMTS; } else { REST }
+    (the `if` has no `else`, `continue;` is its last statement, unlabelled, and no loop lies between it and the `for`).
+    Same control flow: REST runs exactly when the guard is not taken.  Applied whenever the shape occurs; any other use of
+    `continue` is left alone (the front end then rejects the function: undecided).  Returns (text, number of rewrites)."""
+    n = 0
+    for _ in range(50):
+        msk = rustscan.mask(text)
+        done = True
+        for m in re.finditer(r'\bcontinue\s*;', msk):
+            c = m.start()
+            # enclosing blocks of c, innermost first
+            blocks = []
+            depth_stack = []
+            for i, ch in enumerate(msk[:c]):
+                if ch == '{':
+                    depth_stack.append(i)
+                elif ch == '}':
+                    if depth_stack:
+                        depth_stack.pop()
+            blocks = depth_stack[::-1]
+            if len(blocks) < 2:
+                continue
+            if_bo, for_bo = blocks[0], blocks[1]
+            try:
+                if_bc = rustscan.match_close(msk, if_bo)
+                for_bc = rustscan.match_close(msk, for_bo)
+            except ScanError:
+                continue
+            # the innermost block is an `if` (not `else`, not `else if`) whose last statement is the continue
+            stmt_start = max(msk.rfind(';', 0, if_bo), msk.rfind('}', 0, if_bo), msk.rfind('{', 0, if_bo)) + 1
+            head = msk[stmt_start:if_bo].strip()
+            if not re.match(r'if\b', head) or msk[m.end():if_bc].strip():
+                continue
+            if re.match(r'\s*else\b', msk[if_bc + 1:]):
+                continue
+            # the next block out is the body of a `for`
+            fstart = max(msk.rfind(';', 0, for_bo), msk.rfind('}', 0, for_bo), msk.rfind('{', 0, for_bo)) + 1
+            fhead = msk[fstart:for_bo].strip()
+            if not re.match(r"(?:'[A-Za-z_][A-Za-z0-9_]*\s*:\s*)?for\b", fhead):
+                continue
+            rest = text[if_bc + 1:for_bc]
+            indent = re.match(r'[ \t]*', text[rustscan.line_start(text, if_bo):]).group(0)
+            text = text[:c] + text[m.end():if_bc + 1] + ' else {' + rest.rstrip(' \t') + indent + '}\n' + re.match(r'[ \t]*', text[rustscan.line_start(text, for_bc):]).group(0) + text[for_bc:]
+            n += 1
+            done = False
+            break
+        if done:
+            break
+    return text, n
+
+
 def split_or_arms(text):
     """R15: a match arm `P1 | P2 | … => { body }` whose pattern binds by `ref mut` becomes one arm per
     alternative, each with the same body.  Returns (new_text, number_of_arms_split)."""
@@ -354,6 +407,10 @@ class Unit:
         if 'R21' in it.named_rules:
             text, n21 = lower_ref_mut(text)
             rules.append('R21x%d' % n21)      # nothing to rewrite is logged, not an error
+        if re.search(r'\bcontinue\s*;', text):
+            text, n22 = lower_for_continue(text)
+            if n22:
+                rules.append('R22x%d' % n22)
         if 'R19' in it.named_rules:
             # `mut self` receiver: fn f(mut self, …) { … self … }  ->  fn f(self, …) { let mut this = self; … this … }
             m0 = rustscan.mask(text)
